@@ -8,4 +8,5 @@ CONSTANTS
   FixC = TRUE
   FixD = TRUE
   FixE = TRUE
+  Loading = FALSE
 INVARIANTS Fresh Demoted ClosedQuiet
